@@ -80,7 +80,15 @@ func render(m *mirror, st *Step) rendered {
 		kind := m.kinds[st.T]
 		in := st.Init
 		r.src = t.src + " = " + initSrc(kind, in)
-		r.plan = outcome{mutates: true, apply: func(func() int) { t.v.Set(initValue(kind, in)) }}
+		val, cs := initValue(kind, in)
+		switch cs {
+		case cErr:
+			r.plan = errOut("conv")
+		case cUnspec:
+			r.plan = outcome{skip: "map_conversion_key_collision"}
+		default:
+			r.plan = outcome{mutates: true, mayErr: cs == cEither, apply: func(func() int) { t.v.Set(val) }}
+		}
 	case "read":
 		s, ok := keyOrIdx()
 		if !ok {
@@ -431,7 +439,7 @@ func oracle(c Case, o *h.Obs) *h.Fail {
 					if _, isBool := got.(bool); !isBool {
 						return h.Failf("C10|read-value|"+opName+"|"+kind, "%s", failMsg(r.src, "model: a bool\nanko: %s", ank.Describe(got)))
 					}
-				} else if !eq(gv, p.read) {
+				} else if !eq(gv, p.read) && !(p.readAlt.IsValid() && eq(gv, p.readAlt)) {
 					var w interface{}
 					if u := unwrap(p.read); u.IsValid() {
 						w = u.Interface()
@@ -439,6 +447,9 @@ func oracle(c Case, o *h.Obs) *h.Fail {
 					return h.Failf("C10|read-value|"+opName+"|"+kind,
 						"%s", failMsg(r.src, "model (%s): %s\nanko: %s", describeTarget(r.t), ank.Describe(w), ank.Describe(got)))
 				}
+			}
+			if p.note != "" {
+				class("%s", p.note)
 			}
 			if st.Op == "in" {
 				switch {
@@ -491,8 +502,8 @@ func oracle(c Case, o *h.Obs) *h.Fail {
 					strAliased[r.dst] = false // fresh value from slicing / concatenation
 				}
 			}
-			if st.Op == "new" {
-				strAliased[st.T] = false
+			if st.Op == "new" || (st.Op == "app" && st.Form == "+=" && st.Fld == "") {
+				strAliased[st.T] = false // rebound to a fresh value
 			}
 			if errSeen && (isReadOp(st.Op) || (st.Op == "slice" && r.dst < 0)) {
 				errThenRead = true
@@ -541,5 +552,5 @@ func TestC10(t *testing.T) {
 	c := h.New(t, "C10")
 	defer c.Finish()
 	c.Rule("histories of <=25 single-statement container operations (read, write, append via += / + / index len, 2- and 3-index slicing, delete, len, in, alias by assignment, script function mutating its parameter, member read/write, string index/slice/element store) on 3-6 variables of kinds []interface{}, map[interface{}]interface{}, string, []int64, []string, []float64, [][]int64, map[string]int64, map[int64]string and make(struct{A int64,B string,C float64,D []int64,E map[string]int64,F bool}); indices from {MinInt64,-1,0,1,2,len-2..len+1,cap,cap+1,2^31,MaxInt64,1.9,\"x\",nil,[1]}; every step mirrored on real Go values; non-trivial = >=4 steps after initialisation and (a successful mutation of a variable that was aliased or re-sliced, or an erroring operation followed by a successful read); distinct by history text")
-	h.Run(c, "history", c.N(5000, 40000), genCase, oracle)
+	h.Run(c, "history", c.N(12000, 120000), genCase, oracle)
 }
